@@ -75,6 +75,7 @@ RULES = {
     "R-DUP-FORGET": ("rules.ownership", "r_dup_forget"),
     "R-DRAIN-PROTOCOL": ("rules.ownership", "r_drain_protocol"),
     "R-GUARD-STALE-COUNT": ("rules.round3", "r_guard_stale_count"),
+    "R-DROPCK": ("rules.typelevel", "r_dropck"),
     "R-LINEAR-INNER": ("rules.ownership", "r_linear_inner"),
     "R-ALLOC-WHO": ("rules.ownership", "r_alloc_who"),
     "R-SINGLETON-GUARD": ("rules.ownership", "r_singleton_guard"),
@@ -363,9 +364,10 @@ for _p, _rs in _ROUND3.items():
         PROPS[_p]["decided"] += "; round 3: " + _extra
 
 # round 7 (regressions hidden inside refactorings)
-_ROUND7 = {'C02': ['R-GUARD-STALE-COUNT'], 'C03': ['R-GUARD-STALE-COUNT'], 'C04': ['R-GUARD-STALE-COUNT'], 'C11': ['R-GUARD-STALE-COUNT'],
+_ROUND7 = {'C16': ['R-DROPCK'], 'C02': ['R-GUARD-STALE-COUNT', 'R-DROPCK'], 'C03': ['R-GUARD-STALE-COUNT'], 'C04': ['R-GUARD-STALE-COUNT'], 'C11': ['R-GUARD-STALE-COUNT'],
            'C06': ['R-DRAIN-PROTOCOL']}
 _ROUND7_CLAUSE = {
+    "R-DROPCK": "a type whose destructor reaches a borrowed table through a raw pointer carries the borrow's lifetime (R-DROPCK)",
     "R-GUARD-STALE-COUNT": "an unwind guard's clean-up never depends on an element count its creator stores only afterwards (R-GUARD-STALE-COUNT)",
     "R-DRAIN-PROTOCOL": "a drain hands its table back only after resetting it, also when an element destructor panics (R-DRAIN-PROTOCOL)",
 }
@@ -383,7 +385,10 @@ for _p, _rs in _ROUND7.items():
 # shared mechanisms, so the core-table rules are attached to every property whose statement quantifies over table behaviour.
 CORE_TABLE = ["R-PROBE-STOP", "R-PROBE-STEP", "R-SAME-GROUP", "R-CTRL-WRITE", "R-ACCT", "R-SLOT-PROVENANCE", "R-SLOT-FRESH", "R-BUCKET-FRESH",
               "R-RESERVE-GUARD", "R-REHASH-DECISION", "R-REHASH-LOOP", "R-SWEEP-RANGE", "R-RESIZE-TARGET", "R-ZST-PTR", "R-GROUP-DEFS",
-              "R-TAG-CONSTS", "R-BITMASK-DEFS", "R-CURSOR-STATE", "R-ITEMS-GUARD", "R-ERASE-BEFORE", "R-HASH-TAINT", "R-INDEX-BOUNDED", "R-ARG-ORDER", "R-DROPGLUE", "R-ERASE-WINDOW", "R-PROBE-INDEX", "R-CTRL-GEOMETRY", "R-GROUP-CONSTS", "R-SHRINK-DECISION", "R-REHASH-LOOP"]
+              "R-TAG-CONSTS", "R-BITMASK-DEFS", "R-CURSOR-STATE", "R-ITEMS-GUARD", "R-ERASE-BEFORE", "R-HASH-TAINT", "R-INDEX-BOUNDED", "R-ARG-ORDER", "R-DROPGLUE", "R-ERASE-WINDOW", "R-PROBE-INDEX", "R-CTRL-GEOMETRY", "R-GROUP-CONSTS", "R-SHRINK-DECISION", "R-REHASH-LOOP",
+              # round 8: what a caught panic in user code leaves behind is part of every behavioural property (the next operation of the
+              # history runs on that state): guarded windows, guarded bulk destruction, the resize hand-over
+              "R-WINDOW", "R-BULKDROP-GUARD", "R-DROP-ORDER"]
 for _p in ("C01", "C02", "C03", "C04", "C05", "C06", "C07", "C08", "C09", "C10", "C11", "C12", "C13", "C14", "C15", "C19", "C20"):
     _added = []
     for _r in CORE_TABLE:
